@@ -3,6 +3,7 @@
 //! Every case is one JSON object with an "id"; every result line is {"id":..,"res":..} or
 //! {"id":..,"panic":"<message>"} (the call into /repo code runs under catch_unwind).
 pub mod util;
+pub mod core;
 
 use serde_json::{json, Value};
 use std::io::{BufRead, BufReader, BufWriter, Write};
